@@ -55,6 +55,7 @@ def cases(tier, seed):
     for SC in ordered_subsets(mink=1):
         yield dict(kind='sample', SC=SC, tier=tier)
     yield dict(kind='sc-none', tier=tier)
+    yield dict(kind='layouts', tier=tier)
     yield dict(kind='array', tier=tier)
     yield dict(kind='partial', tier=tier)
 
@@ -159,6 +160,39 @@ def run_case(c):
                 judge(res, 'sc-none', 'to_mef(sample, 0, %d curves, sc_channels=None)' % n, d, base,
                       lambda: to_mef(d, 0, [curve(0)] * n), [], [], dict(c), 'numbers of curves and channels differ')
             res.sample({'sc_channels': None, 'requests': len(requests(tier))})
+        elif c['kind'] == 'layouts':
+            # the same curves and channel NAMES applied, one after the other, to samples with different column layouts
+            samples = [('full', d), ('reordered', d[:, ['CH3', 'CH4', 'CH1', 'CH2']]), ('subset', d[:, ['CH4', 'CH2', 'CH3']]), ('reversed', d[:, ::-1])]
+            import functools
+            for SC in ([2, 1], [3, 2, 1], [1]):
+                scn = [NAMES[j] for j in SC]
+                scl = [curve(j) for j in SC]
+                part = functools.partial(to_mef, sc_list=scl, sc_channels=scn)
+                for order in itertools.permutations(range(len(samples)), 2):
+                    for idx in order:
+                        lname, smp = samples[idx]
+                        names_here = list(smp.channels)
+                        b2 = np.array(smp.view(np.ndarray))
+                        for req in (None, scn[0], [scn[-1]], list(reversed(scn))):
+                            rc_names = scn if req is None else ([req] if isinstance(req, str) else req)
+                            what = 'to_mef(%s sample %r, channels=%r, sc_channels=%r) after the same call on another layout' % (lname, names_here, req, scn)
+                            try:
+                                t = part(smp, req)
+                            except Exception as e:
+                                res.violation('layouts:raises:%s' % type(e).__name__, '%s raised %s: %s' % (what, type(e).__name__, e), dict(c))
+                                continue
+                            a = np.asarray(t)
+                            okl = True
+                            for col, nm in enumerate(names_here):
+                                j = NAMES.index(nm)
+                                exp = P[j] * b2[:, col] + Q[j] if nm in rc_names else b2[:, col]
+                                if a[:, col].tobytes() != np.asarray(exp, dtype=np.float64).tobytes():
+                                    res.violation('layouts:paired-wrong', '%s: channel %s is %s..., expected %s...' % (what, nm, a[:2, col].tolist(), np.asarray(exp)[:2].tolist()), dict(c))
+                                    okl = False
+                                    break
+                            if okl:
+                                res.ok('layouts:converted', True)
+            res.sample({'layouts': [s_[0] for s_ in samples], 'sc_channels': 'by name'})
         elif c['kind'] == 'array':
             arr = base.copy()
             for SC in ordered_subsets(mink=1, maxk=3):
